@@ -321,6 +321,11 @@ static double complex sval(int sid, int a0, int b0, char kind, int refk,
     case 'P': return kdisc(k, 0.9);
     case 'V': return kdisc(mix(k, (uint64_t)(refk + 1)), 0.9);
     case 'W': return kdisc(mix(k, 1), 0.9);	/* constant over frequency */
+    case 'X':	/* like V at the first frequency; at the others one value
+		 * shared by all standards (they become indistinguishable) */
+	if (refk == 0)
+	    return kdisc(mix(k, 1), 0.9);
+	return kdisc(key6(g_seed, g_case_key, 0x5E, (uint64_t)refk, 0, 0), 0.9);
     default:  return kdisc(k, 0.9);
     }
 }
@@ -592,7 +597,7 @@ static void do_add(life_t *lp, const step_t *sp)
 		double complex gv[MAXGRID];
 		int n = 0;
 
-		if (kind == 'V') {
+		if (kind == 'V' || kind == 'X') {
 		    /* the calibration grid plus points in between and
 		     * beyond: the values at the calibration points are
 		     * the physical ones, the others arbitrary */
@@ -600,7 +605,7 @@ static void do_add(life_t *lp, const step_t *sp)
 		    gv[n++] = kdisc(mix(g_case_key, (uint64_t)(sp->sid * 64 + i)), 0.9);
 		    for (int f = 0; f < nf; ++f) {
 			gf[n] = lp->freq[f];
-			gv[n++] = sval(sp->sid, a0, b0, 'V', lp->fref[f], 0.0);
+			gv[n++] = sval(sp->sid, a0, b0, kind, lp->fref[f], 0.0);
 			gf[n] = lp->freq[f] * 1.0 + 0.4e9;
 			gv[n++] = kdisc(mix(g_case_key, (uint64_t)(sp->sid * 64 + i + 7 * f + 3)), 0.9);
 		    }
